@@ -6,20 +6,20 @@ import CoCoVerif.Lemmas.DiskReaderA
 namespace CoCo.Dsk
 open CoCo Spec.DiskBasic CoCo.Props
 
-theorem fileLength_eq (n s lb : Nat) (h1 : 1 ≤ s) (h9 : s ≤ 9) :
+theorem fileLength_eq (n s lb : Nat) (h9 : s ≤ 9) :
     fileLength n (0xC0 + s) lb = ((impliedLength n s lb : Nat) : Int) := by
   unfold fileLength impliedLength
   have hm : (0xC0 + s) % 32 = s := by omega
-  have hs0 : ¬ s = 0 := by omega
-  rw [hm, if_neg hs0, G_eq, bytesPerSector_eq]
-  omega
+  rw [hm, G_eq, bytesPerSector_eq]
+  by_cases hs0 : s = 0
+  · rw [if_pos hs0, if_pos hs0]; omega
+  · rw [if_neg hs0, if_neg hs0]; omega
 
 theorem readEntry_slot {img : Bytes} (hb : img.length = 161280) {k : Nat} {d : DFile}
     {c : List Nat} {s : Nat}
     (hchain : chainOf img k = some (c, s))
     (hread : readSlot img k = some d)
-    (hname : ∀ x ∈ d.name, x < 128) (hext : ∀ x ∈ d.ext, x < 128)
-    (hK : ¬ (entFtype (dirEntry img k) ≠ 0x02 ∧ entAscii (dirEntry img k) = 0xFF ∧ s = 0)) :
+    (hname : ∀ x ∈ d.name, x < 128) (hext : ∀ x ∈ d.ext, x < 128) :
     readEntry img ((img.drop FAT).take 256) (DIR + 32 * k) = .ok (ofDFile d) := by
   have he : (img.drop (DIR + 32 * k)).take 32 = dirEntry img k := by
     unfold dirEntry dirOff; rw [DIR_eq]
@@ -73,10 +73,7 @@ theorem readEntry_slot {img : Bytes} (hb : img.length = 161280) {k : Nat} {d : D
         simp only [] at hname hext
         have hkind : kindOf ((dirEntry img k).getD 11 0) ((dirEntry img k).getD 12 0) = .ascii := by
           unfold entAscii at hff; unfold kindOf; rw [if_neg h2', if_pos hff]
-        have hs1 : 1 ≤ s := by
-          have : s ≠ 0 := fun h0 => hK ⟨h2, hff, h0⟩
-          omega
-        have hfl := fileLength_eq c.length s (entLastBytes (dirEntry img k)) hs1 hs9
+        have hfl := fileLength_eq c.length s (entLastBytes (dirEntry img k)) hs9
         rw [← hstlen] at hfl
         unfold entLastBytes at hfl
         have l1 : (st ++ tl).take st.length = st := List.take_left' rfl
@@ -168,10 +165,11 @@ end CoCo.Dsk
 namespace CoCo.Dsk
 open CoCo Spec.DiskBasic CoCo.Props
 
-/-- listing agrees with the reference reader on every consistent image outside the exclusion -/
+/-- listing agrees with the reference reader on every consistent image (no exclusion any more: a last-granule
+marker that says "0 sectors" is read as an empty last granule by both readers) -/
 theorem list_eq_read {img : Bytes} {ds : List DFile} (hf : Fsck img) (hr : Spec.DiskBasic.read img = some ds)
-    (hascii : ∀ d ∈ ds, (∀ c ∈ d.name, c < 128) ∧ (∀ c ∈ d.ext, c < 128))
-    (hK : K_C07_zeroSectorAscii img = false) : Dsk.list img = .ok (ds.map ofDFile) := by
+    (hascii : ∀ d ∈ ds, (∀ c ∈ d.name, c < 128) ∧ (∀ c ∈ d.ext, c < 128)) :
+    Dsk.list img = .ok (ds.map ofDFile) := by
   obtain ⟨hlen, hchains, _, _, _, _⟩ := hf
   unfold imageSize at hlen
   unfold Dsk.list
@@ -191,13 +189,9 @@ theorem list_eq_read {img : Bytes} {ds : List DFile} (hf : Fsck img) (hr : Spec.
     | none => rw [hch] at hsome; cases hsome
     | some cs =>
       obtain ⟨c, s⟩ := cs
-      apply readEntry_slot hlen hch hrs hasc.1 hasc.2
-      intro ⟨h1, h2, h3⟩
-      unfold K_C07_zeroSectorAscii at hK
-      have := List.any_eq_false.mp hK j hmem
-      simp [hch, h1, h2, h3] at this
+      exact readEntry_slot hlen hch hrs hasc.1 hasc.2
 
-/-- the tool never writes an image in the exclusion -/
+/-- the tool never writes an image with an ASCII file whose last-granule marker says 0 sectors (the former exclusion) -/
 theorem Inv.K_false {img : Bytes} {abs : List Ent} (h : Inv img abs) : K_C07_zeroSectorAscii img = false := by
   unfold K_C07_zeroSectorAscii
   apply List.any_eq_false.mpr
